@@ -197,7 +197,10 @@ def r6(rr, repo):
     n = 0
     for p in paths:
         o = p.outcome
-        if o is None or o[0] != 'return' or o[1] is None:
+        if o is None or (o[0] == 'return' and o[1] is None):      # falls off the end / a bare return: tell() answers None, and that is what write_head() would save
+            rr.ob('every path of tell() that does not raise answers with a position', False, mod, fn, witness=p.pc_text()[-200:] + ' => None', key='tell-always-answers')
+            continue
+        if o[0] != 'return':
             continue
         rel = None
         for kk, v in p.pc:
